@@ -72,7 +72,7 @@ type PG struct {
 }
 
 const maxStates = 400000
-const maxTermDepth = 14
+const maxTermDepth = 30
 
 func opaque(name string) *Term { return &Term{Op: "opaque", Name: "?" + name} }
 
